@@ -158,6 +158,7 @@ class Env:
     # -- body operations --------------------------------------------------------------------------------------
     def run_ops(self, ops):
         rec, db = self.rec, self.db
+        off = 6 * (rec.actor - 1)          # threads work on disjoint rows
         for op in ops:
             name = op[0]
             if name == 'read':
@@ -171,7 +172,7 @@ class Env:
                 rec.emit('Body', op='write', w=w)
                 db.T(v=w)
             elif name == 'update':
-                pk = op[1]
+                pk = op[1] + off
                 rec.point()
                 rec.emit('Body', op='read')
                 obj = db.T[pk]
@@ -181,18 +182,20 @@ class Env:
                 rec.emit('Body', op='write', w=w)
                 obj.v = w
             elif name == 'delete':
-                pk = op[1]
+                pk = op[1] + off
                 rec.point()
                 rec.emit('Body', op='read')
                 obj = db.T[pk]
                 rec.point()
                 w = rec.new_write(lambda sql, args: False)
                 self._set_pred(w, lambda sql, args, pk=pk: sql.lstrip().upper().startswith('DELETE') and _has(args, pk))
-                rec.emit('Body', op='write', w=w)
-                obj.delete()
                 self.wmap[w] = ('delete', pk)
+                rec.emit('Body', op='write', w=w, _what=['delete', pk])
+                obj.delete()
             elif name == 'link':
                 i, j = op[1], op[2]
+                if i == 'a':
+                    i = (rec.actor - 1) % 3 + 1
                 rec.point()
                 rec.emit('Body', op='read')
                 a = db.A[i]
@@ -205,9 +208,9 @@ class Env:
                 rec.point()
                 w = rec.new_write(lambda sql, args: False)
                 self._set_pred(w, lambda sql, args: sql.lstrip().upper().startswith('INSERT') and 'A_B' in sql.upper())
-                rec.emit('Body', op='write', w=w)
-                a.bs.add(b)
                 self.wmap[w] = ('link', i, j)
+                rec.emit('Body', op='write', w=w, _what=['link', i, j])
+                a.bs.add(b)
             elif name == 'raw':
                 rec.point()
                 w = rec.new_write(lambda sql, args: False)
